@@ -28,6 +28,7 @@ pub enum Mode {
 }
 
 pub struct Kh {
+    pub ring: crate::props::c09::RingSel,
     pub name: &'static str,
     pub pd: Pd,
     pub mirror: bool,
@@ -45,28 +46,32 @@ impl Kh {
     }
 }
 
-pub fn compare_with_reference<I: VInt>(pd: &Pd, mirror: bool, reduced: bool, h: &I, t: &I, lib: &[(isize, usize, Vec<I>)], label: &str)
+pub fn compare_with_reference<I, R>(pd: &Pd, mirror: bool, reduced: bool, h: &R, t: &R, lib: &[(isize, usize, Vec<R>)], label: &str)
 where
+    I: VInt,
     for<'x> &'x I: VIntOps<I>,
+    R: VRing<I> + EucRing,
+    for<'x> &'x R: EucRingOps<R>,
 {
-    let Some(rc) = khref::cube_complex::<I>(pd, mirror, h, t, reduced) else {
+    let Some(rc) = khref::cube_complex::<R>(pd, mirror, h, t, reduced) else {
         I::oblige(&format!("{}: reference complex could be built", label), VF::False);
         return;
     };
-    let sig = khref::homology_signature(&rc);
+    let size = |x: &R| -> num_bigint::BigInt { x.zero_comps().iter().map(|c| num_traits::Signed::abs(&c.shadow())).sum() };
+    let sig = khref::homology_signature(&rc, &size);
     // every degree reported by either side
     let mut degs: std::collections::BTreeSet<isize> = sig.iter().map(|s| s.0).collect();
     degs.extend(lib.iter().map(|s| s.0));
     for i in degs {
         let r = sig.iter().find(|s| s.0 == i);
         let l = lib.iter().find(|s| s.0 == i);
-        let (rr, rt): (usize, Vec<I>) = r.map(|s| (s.1, s.2.clone())).unwrap_or((0, vec![]));
-        let (lr, lt): (usize, Vec<I>) = l.map(|s| (s.1, s.2.clone())).unwrap_or((0, vec![]));
+        let (rr, rt): (usize, Vec<R>) = r.map(|s| (s.1, s.2.clone())).unwrap_or((0, vec![]));
+        let (lr, lt): (usize, Vec<R>) = l.map(|s| (s.1, s.2.clone())).unwrap_or((0, vec![]));
         I::oblige(&format!("{}: free rank in degree {} (library {}, cube {})", label, i, lr, rr), VF::of_bool(lr == rr));
         I::oblige(&format!("{}: number of torsion summands in degree {} (library {}, cube {})", label, i, lt.len(), rt.len()), VF::of_bool(lt.len() == rt.len()));
         if lt.len() == rt.len() {
             for (k, (a, b)) in lt.iter().zip(&rt).enumerate() {
-                I::oblige(&format!("{}: torsion factor {} in degree {} associate", label, k, i), VF::Or(vec![VF::zero(a - b), VF::zero(a + b)]));
+                I::oblige(&format!("{}: torsion factor {} in degree {} associate", label, k, i), a.associate(b));
             }
         }
     }
@@ -74,7 +79,7 @@ where
 
 impl Harness for Kh {
     fn id(&self) -> String {
-        format!("kh/{:?}/{}{}{}/ht{}", self.mode, self.name, if self.mirror { "-mirror" } else { "" }, if self.reduced { "/reduced" } else { "" },
+        format!("kh/{:?}{}/{}{}{}/ht{}", self.mode, if self.ring == crate::props::c09::RingSel::Q { "/Q" } else { "" }, self.name, if self.mirror { "-mirror" } else { "" }, if self.reduced { "/reduced" } else { "" },
             self.b.map(|b| format!("B{}", b)).unwrap_or("-unbounded".into()))
     }
     fn functions(&self) -> Vec<&'static str> {
@@ -162,9 +167,17 @@ impl Harness for Kh {
             }
             Mode::EvalKernel => unreachable!(),
             Mode::Homology => {
-                let kh = c.homology();
-                let lib: Vec<(isize, usize, Vec<I>)> = kh.support().map(|i| (i, kh[i].rank(), kh[i].tors().to_vec())).collect();
-                compare_with_reference(&self.pd, self.mirror, self.reduced, &h, &t, &lib, "Kh");
+                if self.ring == crate::props::c09::RingSel::Q {
+                    let (hq, tq) = (yui::Ratio::from(h.clone()), yui::Ratio::from(t.clone()));
+                    let cq = KhComplex::<yui::Ratio<I>>::new(&link, &hq, &tq, self.reduced);
+                    let kh = cq.homology();
+                    let lib: Vec<(isize, usize, Vec<yui::Ratio<I>>)> = kh.support().map(|i| (i, kh[i].rank(), kh[i].tors().to_vec())).collect();
+                    compare_with_reference::<I, yui::Ratio<I>>(&self.pd, self.mirror, self.reduced, &hq, &tq, &lib, "Kh over Q");
+                } else {
+                    let kh = c.homology();
+                    let lib: Vec<(isize, usize, Vec<I>)> = kh.support().map(|i| (i, kh[i].rank(), kh[i].tors().to_vec())).collect();
+                    compare_with_reference::<I, I>(&self.pd, self.mirror, self.reduced, &h, &t, &lib, "Kh");
+                }
             }
         }
     }
@@ -173,7 +186,7 @@ impl Harness for Kh {
 pub fn configs(tier: crate::registry::Tier, _seed: u64) -> Vec<crate::registry::Entry> {
     use crate::registry::{entry, Tier};
     let mut v = Vec::new();
-    v.push(entry(Kh { name: "closed-surfaces", pd: vec![], mirror: false, reduced: false, b: Some(3), mode: Mode::EvalKernel }, 200, 120.0));
+    v.push(entry(Kh { ring: crate::props::c09::RingSel::Z, name: "closed-surfaces", pd: vec![], mirror: false, reduced: false, b: Some(3), mode: Mode::EvalKernel }, 200, 120.0));
     for (name, pd) in khref::catalogue() {
         let n = pd.len();
         if n > 3 && tier == Tier::Quick {
@@ -187,7 +200,22 @@ pub fn configs(tier: crate::registry::Tier, _seed: u64) -> Vec<crate::registry::
                 }
                 let b = if n <= 2 { 2 } else { 1 };
                 let b = if tier == Tier::Thorough { b + 1 } else { b };
-                v.push(entry(Kh { name, pd: pd.clone(), mirror, reduced, b: Some(if reduced { b + 1 } else { b }), mode: Mode::Homology }, 200, if tier == Tier::Quick { 240.0 } else { 1800.0 }));
+                v.push(entry(Kh { ring: crate::props::c09::RingSel::Z, name, pd: pd.clone(), mirror, reduced, b: Some(if reduced { b + 1 } else { b }), mode: Mode::Homology }, 200, if tier == Tier::Quick { 240.0 } else { 1800.0 }));
+                if !reduced && (n <= 3 || tier == Tier::Thorough) {
+                    v.push(entry(Kh { ring: crate::props::c09::RingSel::Q, name, pd: pd.clone(), mirror, reduced, b: Some(b), mode: Mode::Homology }, 200, if tier == Tier::Quick { 240.0 } else { 1800.0 }));
+                }
+            }
+        }
+    }
+    // larger diagrams from the repository's table (5-6 crossings): Z and Q, (h,t) in [-1,1]^2 (quick) / [-2,2]^2 (thorough)
+    for (name, pd) in khref::big_catalogue() {
+        let quick_set = ["5_2", "L5a1", "6_2"];
+        if tier == Tier::Quick && !quick_set.contains(&name) {
+            continue;
+        }
+        for mirror in [false, true] {
+            for ring in [crate::props::c09::RingSel::Z, crate::props::c09::RingSel::Q] {
+                v.push(entry(Kh { ring, name, pd: pd.clone(), mirror, reduced: false, b: Some(if tier == Tier::Quick { if ring == crate::props::c09::RingSel::Q { 1 } else { 2 } } else { 3 }), mode: Mode::Homology }, 120, if tier == Tier::Quick { 150.0 } else { 1800.0 }));
             }
         }
     }
@@ -204,9 +232,9 @@ pub fn configs_c05a(tier: crate::registry::Tier, _seed: u64) -> Vec<crate::regis
         let knot = name != "hopf";
         for mirror in [false, true] {
             // (h,t) unbounded: the verdict of each class holds for all integers in the class
-            v.push(entry(Kh { name, pd: pd.clone(), mirror, reduced: false, b: None, mode: Mode::ChainComplex }, 60, 120.0));
+            v.push(entry(Kh { ring: crate::props::c09::RingSel::Z, name, pd: pd.clone(), mirror, reduced: false, b: None, mode: Mode::ChainComplex }, 60, 120.0));
             if knot {
-                v.push(entry(Kh { name, pd: pd.clone(), mirror, reduced: true, b: None, mode: Mode::ChainComplex }, 60, 120.0));
+                v.push(entry(Kh { ring: crate::props::c09::RingSel::Z, name, pd: pd.clone(), mirror, reduced: true, b: None, mode: Mode::ChainComplex }, 60, 120.0));
             }
         }
     }
